@@ -45,6 +45,8 @@ class _Ctl:
         self.writes = []
         self.caller_ident = None            # thread that called the decorated function
         self.mech_seen = None               # what protected the first scripted read: signal | thread | none
+        self.eof_seen = False               # the device ended its side of the session (every read: EOF), socket still open
+        self.res = None                     # the fake socket / stream / pty under a REAL transport (has .closed)
 
     def note_mechanism(self):
         """which mechanism is in force while the wrapped call runs (observed from inside the call)"""
@@ -65,7 +67,9 @@ class _Ctl:
             if self.ix >= len(self.steps):
                 return ("stall",)           # script exhausted: the device stays silent
             st = self.steps[self.ix]
-            if st[0] not in ("stall", "stall_closed"):
+            if st[0] == "eof":
+                self.eof_seen = True        # half-closed by the peer: stays at EOF, nothing closes the socket
+            if st[0] not in ("stall", "stall_closed", "eof"):
                 self.ix += 1
             return st
 
@@ -74,6 +78,22 @@ class _Ctl:
             self.by_watchdog = True
         self.released.set()
         self.wake.set()
+
+    def hard_release(self):
+        """from a harness thread: ends a call that no longer gives the event loop a turn (every scripted read, also a
+        read at EOF, first looks at `released`)"""
+        if not self.released.is_set():
+            self.by_watchdog = True
+        self.released.set()
+        self.wake.set()
+
+
+def _note_write(ctl, b):
+    """what the device is sent; a call that goes on writing without reading any more (a login answering an EOF it
+    remembers with one return after the other) is ended here once the harness has released the case"""
+    if ctl.released.is_set():
+        raise HarnessReleased()
+    ctl.writes.append(bytes(b))
 
 
 def _sync_step(ctl, is_open):
@@ -87,6 +107,8 @@ def _sync_step(ctl, is_open):
     k = st[0]
     if k == "data":
         return bytes.fromhex(st[1])
+    if k == "eof":                         # the peer ended the session: at once, every time
+        raise ScrapliConnectionError("scripted device ended the session (EOF)")
     if k == "ddata":                       # data that arrives after st[1] seconds
         ctl.released.wait(st[1])
         if ctl.released.is_set():
@@ -185,6 +207,8 @@ async def _async_step_inner(ctl, is_open, issued):
         if k == "data":
             ctl.delivered.append((issued, ctl.epoch, st[1], ctl.ix - 1))
             return bytes.fromhex(st[1])
+        if k == "eof":                       # (a stream at EOF answers without giving the loop a turn)
+            raise ScrapliConnectionError("scripted device ended the session (EOF)")
         if k in ("ret", "exc", "ddata"):
             if st[1]:
                 try:
@@ -243,12 +267,13 @@ def sync_transport_class(name, wrapped):
         self.ctl.wake.set()
 
     def isalive(self):
-        return self._is_open
+        # like the telnet / ssh transports: not alive once the device ended the session, whatever is still open here
+        return self._is_open and not self.ctl.eof_seen
 
     def write(self, channel_input):
         if not self._is_open:
             raise ScrapliConnectionNotOpened
-        self.ctl.writes.append(bytes(channel_input))
+        _note_write(self.ctl, channel_input)
 
     def step(self):
         if not self._is_open:
@@ -286,12 +311,12 @@ def async_transport_class(name, wrapped):
         self.ctl.closed()
 
     def isalive(self):
-        return self._is_open
+        return self._is_open and not self.ctl.eof_seen
 
     def write(self, channel_input):
         if not self._is_open:
             raise ScrapliConnectionNotOpened
-        self.ctl.writes.append(bytes(channel_input))
+        _note_write(self.ctl, channel_input)
 
     async def step(self):
         if not self._is_open:
@@ -366,7 +391,7 @@ class _FakeSession:          # under SystemTransport (PtyProcess interface used 
             raise EOFError("scripted pty closed")
 
     def write(self, b):
-        self.ctl.writes.append(bytes(b))
+        _note_write(self.ctl, b)
 
     def close(self):
         self.closed = True
@@ -392,7 +417,7 @@ class _FakeSock:             # under TelnetTransport
             return b""
 
     def send(self, b):
-        self.ctl.writes.append(bytes(b))
+        _note_write(self.ctl, b)
         return len(b)
 
     def settimeout(self, t):
@@ -427,7 +452,7 @@ class _FakeReader:           # under AsynctelnetTransport / AsyncsshTransport (s
             return b""
 
     def at_eof(self):
-        return False
+        return self.ctl.eof_seen
 
 
 class _FakeWriter:
@@ -435,7 +460,7 @@ class _FakeWriter:
         self.ctl, self.reader = ctl, reader
 
     def write(self, b):
-        self.ctl.writes.append(bytes(b))
+        _note_write(self.ctl, b)
 
     def close(self):
         self.reader.closed = True
@@ -474,20 +499,21 @@ def build_real_transport(case, ctl):
     if kind == "system":
         from scrapli.transport.plugins.system.transport import PluginTransportArgs, SystemTransport
         t = SystemTransport(bta, PluginTransportArgs(auth_username="u"))
-        t.session = _FakeSession(ctl)
+        t.session = ctl.res = _FakeSession(ctl)
     elif kind == "telnet":
         from scrapli.transport.plugins.telnet.transport import PluginTransportArgs, TelnetTransport
         t = TelnetTransport(bta, PluginTransportArgs())
         t.socket = _FakeSocket(ctl)
+        ctl.res = t.socket.sock
     elif kind == "asynctelnet":
         from scrapli.transport.plugins.asynctelnet.transport import AsynctelnetTransport, PluginTransportArgs
         t = AsynctelnetTransport(bta, PluginTransportArgs())
-        t.stdout = _FakeReader(ctl)
+        t.stdout = ctl.res = _FakeReader(ctl)
         t.stdin = _FakeWriter(ctl, t.stdout)
     elif kind == "asyncssh":
         from scrapli.transport.plugins.asyncssh.transport import AsyncsshTransport, PluginTransportArgs
         t = AsyncsshTransport(bta, PluginTransportArgs(auth_username="u"))
-        t.stdout = _FakeReader(ctl)
+        t.stdout = ctl.res = _FakeReader(ctl)
         t.stdin = _FakeWriter(ctl, t.stdout)
         t.session = _FakeSshConn(ctl, t.stdout)
     else:
@@ -554,10 +580,16 @@ def _build(case, ctl):
         tr = build_real_transport(case, ctl)
     else:
         tr = mk(case["cls"], case["wrapped"])(_bta(case), ctl)
-    if level == "tleaf":                       # the transport's own decorated read()
+    if level == "tleaf" and not case.get("prelude"):      # the transport's own decorated read()
         return (lambda: tr.read()), tr, None
     bca = BaseChannelArgs(comms_prompt_pattern=PROMPT_PATTERN, timeout_ops=case["t_ops"],
                           channel_lock=case["lock"])
+    if level == "tleaf":                       # ... after sessions in which a real channel over it was used
+        if is_async:
+            from scrapli.channel.async_channel import AsyncChannel as _Ch
+        else:
+            from scrapli.channel.sync_channel import Channel as _Ch
+        return (lambda: tr.read()), tr, _Ch(tr, bca)
     if level == "cleaf":                       # a decorated channel method whose body is one raw step
         ch = (async_channel_class() if is_async else sync_channel_class())(tr, bca)
         return (lambda: getattr(ch, "leaf_" + case["fname"])()), tr, ch
@@ -597,6 +629,154 @@ def watchdog_after(case):
     return (max(ts) if ts else 0.0) + max(case.get("extra", 0.0), 0.0) + 1.6
 
 
+def res_open(tr, ctl):
+    """is what the transport holds (the scripted transport itself; the fake socket / stream / pty under a real transport)
+    still open?  NOT isalive(): a transport whose peer ended the session reports not-alive with everything still open"""
+    if hasattr(tr, "_is_open"):
+        return bool(tr._is_open)
+    return not ctl.res.closed
+
+
+# --------------------------------------------------------------------------------------------
+# prelude: sessions on the SAME transport + channel objects that end half-way through an operation (the device drops the
+# session, the caller cancels the operation, its timeout fires), each followed by a re-open, before the call under test
+# --------------------------------------------------------------------------------------------
+PRELUDE_OPS = {
+    "send_input_and_read": lambda ch, s: ch.send_input_and_read("show tech", expected_outputs=["never shown"],
+                                                                read_duration=s["read_duration"]),
+    "send_input": lambda ch, s: ch.send_input("show tech"),
+    "get_prompt": lambda ch, s: ch.get_prompt(),
+}
+PRELUDE_STREAM = {"send_input_and_read": [b"show tech", b"\nsome output, no prompt yet\n", b"more\n"],
+                  "send_input": [b"show tech", b"\nsome output, no prompt yet\n", b"more\n"],
+                  "get_prompt": [b"\n", b"rout"]}
+
+
+def prelude_steps(s):
+    """the device's side of one prelude session: k chunks, then it drops the session (EOF) or goes silent"""
+    steps = [("data", x.hex()) for x in PRELUDE_STREAM[s["op"]][:s["k"]]]
+    return steps + [("eof",) if s["abort"] == "drop" else (s.get("stall", "stall_closed"),)]
+
+
+def _limits_now(tr, ch):
+    return [ch._base_channel_args.timeout_ops if ch is not None else None, tr._base_transport_args.timeout_transport]
+
+
+def _attach_sync(case, tr, ctl):
+    """(re-)open the SAME transport object on a new session of the device"""
+    if case.get("real") == "telnet":
+        if tr.socket:
+            tr.close()
+        tr.socket = _FakeSocket(ctl)           # (open() would dial; what open() resets besides is reset here)
+        ctl.res = tr.socket.sock
+        tr._eof, tr._raw_buf, tr._cooked_buf, tr._control_buf = False, b"", b"", b""
+    elif case.get("real") == "system":
+        tr.close()
+        tr.session = ctl.res = _FakeSession(ctl)
+    else:
+        tr.ctl = ctl
+        tr.open()
+
+
+async def _attach_async(case, tr, ctl):
+    kind = case.get("real")
+    if kind == "asynctelnet":
+        reader = ctl.res = _FakeReader(ctl)
+        writer = _FakeWriter(ctl, reader)
+
+        async def fake_open_connection(host=None, port=None, **kw):
+            return reader, writer
+
+        saved = asyncio.open_connection
+        asyncio.open_connection = fake_open_connection
+        try:
+            await tr.open()                    # the REAL open(), only the dialling replaced
+        finally:
+            asyncio.open_connection = saved
+    elif kind == "asyncssh":
+        tr.close()
+        tr.stdout = ctl.res = _FakeReader(ctl)
+        tr.stdin = _FakeWriter(ctl, tr.stdout)
+        tr.session = _FakeSshConn(ctl, tr.stdout)
+    else:
+        tr.ctl = ctl
+        await tr.open()
+
+
+def _prelude_entry(s, pctl, box, t0, tr, ch):
+    return {"op": s["op"], "abort": s["abort"], "out": box.get("out"), "elapsed": round(time.monotonic() - t0, 3),
+            "hang": bool(pctl.by_watchdog), "alive_after": bool(tr.isalive()), "limits_after": _limits_now(tr, ch)}
+
+
+def _prelude_sync(case, tr, ch, ctl, threads_before):
+    out = []
+    for s in case["prelude"]:
+        pctl = _Ctl(prelude_steps(s))
+        _attach_sync(case, tr, pctl)
+        box = {}
+
+        def body(pctl=pctl, s=s, box=box):
+            pctl.caller_ident = threading.get_ident()
+            try:
+                box["out"] = _canon_ret(PRELUDE_OPS[s["op"]](ch, s))
+            except BaseException as e:  # noqa
+                box["out"] = _canon_exc(e)
+
+        wd = threading.Timer(2.5, lambda pctl=pctl: pctl.release(watchdog=True))
+        wd.daemon = True
+        wd.start()
+        p0 = time.monotonic()
+        if case.get("main_thread", True):
+            body()
+        else:
+            th = threading.Thread(target=body, daemon=True)
+            th.start()
+            th.join()
+        wd.cancel()
+        wd.join()
+        out.append(_prelude_entry(s, pctl, box, p0, tr, ch))
+        pctl.released.set()
+        pctl.wake.set()
+        for x in [x for x in threading.enumerate() if x not in threads_before]:
+            x.join(3)
+        if s.get("reopen", True) and tr.isalive():
+            tr.close()
+    ctl.wake.clear()                           # (closing what was attached before this session is not this session's close)
+    _attach_sync(case, tr, ctl)
+    return out
+
+
+async def _prelude_async(case, tr, ch, ctl, loop):
+    out = []
+    for s in case["prelude"]:
+        pctl = _ACtl(prelude_steps(s))
+        pctl.bind(loop)
+        await _attach_async(case, tr, pctl)
+        box = {}
+        h = loop.call_later(2.5, lambda pctl=pctl: pctl.release(watchdog=True))
+        p0 = time.monotonic()
+        task = loop.create_task(PRELUDE_OPS[s["op"]](ch, s))
+        if s["abort"] == "cancel":
+            # the caller gives the operation up while it waits for the device (its read is blocked)
+            while not pctl.stall_entered.is_set() and not task.done():
+                await asyncio.sleep(0)
+            task.cancel()
+        try:
+            box["out"] = _canon_ret(await task)
+        except BaseException as e:  # noqa
+            box["out"] = _canon_exc(e)
+        h.cancel()
+        out.append(_prelude_entry(s, pctl, box, p0, tr, ch))
+        pctl.release()
+        await asyncio.sleep(0)
+        if s.get("reopen", True) and tr.isalive():
+            tr.close()
+    ctl.a_wake = asyncio.Event()               # (closing what was attached before this session is not this session's close)
+    ctl.wake.clear()
+    await _attach_async(case, tr, ctl)
+    return out
+
+
 def run_case(case):
     import scrapli.decorators as dec
     from scrapli.settings import Settings
@@ -625,9 +805,12 @@ def run_case(case):
             loop = asyncio.new_event_loop()
             ctl.bind(loop)
         call, tr, ch = _build(case, ctl)
+        box = {}
+        if case.get("prelude") and not is_async:
+            box["prelude"] = _prelude_sync(case, tr, ch, ctl, threads_before)
+            box["limits_at_start"] = _limits_now(tr, ch)
         if pt:
             signal.setitimer(signal.ITIMER_REAL, pt[0], pt[1])
-        box = {}
 
         def body():
             ctl.caller_ident = threading.get_ident()
@@ -640,8 +823,17 @@ def run_case(case):
         t0 = time.monotonic()
         if is_async:
             async def go():
+                if case.get("prelude"):
+                    box["prelude"] = await _prelude_async(case, tr, ch, ctl, loop)
+                    box["limits_at_start"] = _limits_now(tr, ch)
                 tasks_before = set(asyncio.all_tasks())
                 h = loop.call_later(W, lambda: ctl.release(watchdog=True))
+                # should the call stop giving the loop a turn, a harness thread ends the device's side of it
+                hard = threading.Timer(W + 1.0, ctl.hard_release)
+                hard.daemon = True
+                hard.start()
+                box["hard"] = hard
+                box["t0"] = time.monotonic()
                 try:
                     box["out"] = _canon_ret(await call())
                 except BaseException as e:  # noqa
@@ -650,6 +842,7 @@ def run_case(case):
                 box["in_flight"] = ctl.in_flight          # reads still blocked at the instant the call came back
                 box["hang"] = bool(ctl.by_watchdog)
                 box["alive"] = bool(tr.isalive())         # (before anything follows on the connection)
+                box["res_open"] = res_open(tr, ctl)
                 box["lock_held"] = bool(ch is not None and ch.channel_lock is not None and ch.channel_lock.locked())
                 h.cancel()
                 left = []
@@ -698,7 +891,12 @@ def run_case(case):
                         "tasks": len(now_left), "alive": bool(tr.isalive()),
                         "lock_held": bool(ch.channel_lock is not None and ch.channel_lock.locked())}
 
-            loop.run_until_complete(go())
+            try:
+                loop.run_until_complete(go())
+            finally:
+                if box.get("hard") is not None:
+                    box["hard"].cancel()
+                    box["hard"].join()
         else:
             wd = threading.Timer(W, lambda: ctl.release(watchdog=True))
             wd.daemon = True
@@ -723,9 +921,10 @@ def run_case(case):
         extra_threads = [t for t in threading.enumerate() if t not in threads_before and t.is_alive()]
         obs = {
             "out": box.get("out"),
-            "elapsed": round(box.get("t1", time.monotonic()) - t0, 3),
+            "elapsed": round(box.get("t1", time.monotonic()) - box.get("t0", t0), 3),
             "hang": bool(box.get("hang", ctl.by_watchdog)),
             "alive": bool(box.get("alive", tr.isalive())),
+            "res_open": bool(box.get("res_open", res_open(tr, ctl))),
             "handler_restored": after_handler is prev or after_handler == prev,
             "timer_after": [round(after_timer[0], 3), round(after_timer[1], 3)],
             "fired": len(fired),
@@ -740,6 +939,9 @@ def run_case(case):
             obs["tasks_at_return"] = box.get("tasks_at_return", 0)
             if "follow" in box:
                 obs["follow"] = box["follow"]
+        if "prelude" in box:
+            obs["prelude"] = box["prelude"]
+            obs["limits_at_start"] = box["limits_at_start"]
     finally:
         signal.setitimer(signal.ITIMER_REAL, 0)
         signal.signal(signal.SIGALRM, signal.SIG_DFL)
